@@ -10,6 +10,7 @@ import (
 
 	slug "github.com/hashicorp/go-slug"
 
+	"verif/harness/corpus"
 	"verif/harness/fw"
 	"verif/harness/gen"
 	"verif/harness/mon"
@@ -42,7 +43,7 @@ type c15Model struct {
 func c15Interpret(es []gen.TarEntry) c15Model {
 	m := c15Model{Tree: map[string]*mnode{}}
 	for _, e := range es {
-		if e.Type == "xglobal" || e.Name == "" {
+		if e.Name == "" {
 			continue
 		}
 		n := e.Name
@@ -50,8 +51,32 @@ func c15Interpret(es []gen.TarEntry) c15Model {
 			n = n[1:]
 		}
 		rel := path.Clean(n)
+		if e.Type == "xglobal" {
+			// header records are not extracted; one with a hostile name may
+			// be refused all the same
+			if rel == ".." || strings.HasPrefix(rel, "../") {
+				m.Undefined = "header record whose name leaves the archive root: " + e.String()
+				return m
+			}
+			parts := strings.Split(rel, "/")
+			for i := 1; i < len(parts); i++ {
+				if ex := m.Tree[strings.Join(parts[:i], "/")]; ex != nil && ex.Kind != "dir" {
+					m.Undefined = "header record whose name lies below a " + ex.Kind + ": " + e.String()
+					return m
+				}
+			}
+			continue
+		}
 		if rel == "." {
+			if e.Type != "dir" {
+				m.Undefined = "a non-directory entry names the archive root itself: " + e.String()
+				return m
+			}
 			continue // metadata of dst itself: not compared
+		}
+		if rel == ".." || strings.HasPrefix(rel, "../") {
+			m.Undefined = "entry name leaves the archive root (not a well-formed slug; C01): " + e.String()
+			return m
 		}
 		switch e.Type {
 		case "hard", "fifo", "char", "block":
@@ -74,6 +99,10 @@ func c15Interpret(es []gen.TarEntry) c15Model {
 			// a symlink path re-used by a later entry: tar implementations
 			// differ (replace / follow / refuse); not judged
 			m.Undefined = "entry over existing link " + rel
+			return m
+		}
+		if e.Type == "link" && e.Link == "" {
+			m.Undefined = "link entry without a target (no file system can hold it): " + e.String()
 			return m
 		}
 		if e.Type == "link" && lexicalEscape(rel, e.Link) {
@@ -104,7 +133,54 @@ func c15Interpret(es []gen.TarEntry) c15Model {
 			m.Tree[rel] = &mnode{Kind: "link", Target: e.Link, Explicit: true}
 		}
 	}
+	// a link that stays inside as written but is led out of the archive root
+	// by another link of the archive on the way is not a well-formed slug
+	// either (it must be refused: C04)
+	for p, n := range m.Tree {
+		if n.Kind == "link" && c15LedOutside(m.Tree, p) {
+			m.Undefined = "link " + p + " -> " + n.Target + " is led out of the archive root by another link"
+			return m
+		}
+	}
 	return m
+}
+
+// c15LedOutside follows the link at p through the abstract tree the way an
+// operating system would and reports whether it climbs above the root.
+func c15LedOutside(tree map[string]*mnode, p string) bool {
+	cur := strings.Split(path.Dir(p), "/")
+	if path.Dir(p) == "." {
+		cur = nil
+	}
+	pending := strings.Split(tree[p].Target, "/")
+	for hops := 0; len(pending) > 0; {
+		c := pending[0]
+		pending = pending[1:]
+		switch c {
+		case "", ".":
+			continue
+		case "..":
+			if len(cur) == 0 {
+				return true
+			}
+			cur = cur[:len(cur)-1]
+			continue
+		}
+		next := append(append([]string{}, cur...), c)
+		n := tree[strings.Join(next, "/")]
+		if n == nil || n.Kind != "link" {
+			cur = next
+			continue
+		}
+		if hops++; hops > 40 {
+			return false
+		}
+		if strings.HasPrefix(n.Target, "/") {
+			return true
+		}
+		pending = append(strings.Split(n.Target, "/"), pending...)
+	}
+	return false
 }
 
 func c15Compare(m c15Model, actual map[string]mon.TNode) []string {
@@ -171,6 +247,10 @@ func c15Alphabet() []gen.TarEntry {
 		l("a", "d"), l("d", "a/b"), l("a/b", "../d"), l("d", "a"), l("a/b/c", "../../d"), l("a", "missing"),
 		{Name: "a", Type: "hard", Link: "d", Mode: 0644}, {Name: "d", Type: "fifo", Mode: 0644}, {Name: "a/b", Type: "char", Mode: 0644},
 		{Type: "xglobal", PAX: map[string]string{"comment": "global header", "VERIF.note": "x"}},
+		// header records are not extracted: neither a directory for their
+		// name nor a change to what another entry left under that name
+		{Name: "e/pax_global_header", Type: "xglobal", PAX: map[string]string{"comment": "y"}},
+		{Name: "a", Type: "xglobal", PAX: map[string]string{"comment": "z"}},
 	}
 }
 
@@ -422,6 +502,21 @@ func c15Phases(unpriv bool) []*fw.Phase {
 			return c15Run(env, c15RandomSeq(r))
 		},
 	}
+	kept := corpus.UnpackInputs()
+	distilled := &fw.Phase{
+		Name: "fuzz-distilled-sequences" + suffix, Chroot: true, Unpriv: unpriv, Exhaustive: true,
+		N: func(string) int { return len(kept) },
+		Run: func(env *fw.Env, idx int) fw.Result {
+			es := gen.DecodeFuzzEntries([]byte(kept[idx]))
+			if len(es) == 0 {
+				return fw.Result{Class: "empty-sequence"}
+			}
+			for i := range es {
+				es[i].Mtime = 0 // c15Run gives every entry its own time
+			}
+			return c15Run(env, c15Case{Entries: es})
+		},
+	}
 	unsup := &fw.Phase{
 		Name: "unsupported-at-every-position" + suffix, Chroot: true, Unpriv: unpriv,
 		N: fw.Fixed(1500, 10000),
@@ -442,7 +537,7 @@ func c15Phases(unpriv bool) []*fw.Phase {
 			return agg
 		},
 	}
-	return []*fw.Phase{exh2, exh3, rnd, unsup}
+	return []*fw.Phase{exh2, exh3, rnd, distilled, unsup}
 }
 
 func init() {
